@@ -8,24 +8,22 @@ import PyEcc.Gen.ExtraHashSecp
 namespace PyEcc.Tie
 open PyEcc
 
-/-- the loop of `bytes_to_int` on Python ints, started from a natural number, is the natural-number fold of `os2ip`. -/
-theorem bytes_to_int_loop (x : Bytes) (o : Nat) :
-    List.foldl Gen.ExtraHashSecp.bytes_to_int_loop0 (o : Int) x
-      = ((List.foldl (fun acc (b : UInt8) => acc * 256 + b.toNat) o x : Nat) : Int) := by
+/-- a fold on Python ints whose step maps natural numbers to natural numbers (`f o b = g o b` on naturals), started from a natural
+    number, is the natural-number fold (the step function `f` is taken from the goal: the loop is translated in place). -/
+theorem foldl_int_of_nat {α : Type} (f : Int → α → Int) (g : Nat → α → Nat) (hf : ∀ (o : Nat) (b : α), f (o : Int) b = ((g o b : Nat) : Int))
+    (x : List α) (o : Nat) : List.foldl f (o : Int) x = ((List.foldl g o x : Nat) : Int) := by
   induction x generalizing o with
   | nil => rfl
-  | cons b x ih =>
-    have step : Gen.ExtraHashSecp.bytes_to_int_loop0 (o : Int) b = ((o * 256 + b.toNat : Nat) : Int) := by
-      unfold Gen.ExtraHashSecp.bytes_to_int_loop0
-      simp only [Int.natCast_add, Int.natCast_mul]
-      rfl
-    rw [List.foldl_cons, List.foldl_cons, step, ih]
+  | cons b x ih => rw [List.foldl_cons, List.foldl_cons, hf, ih]
 
 /-- `bytes_to_int(x)` as translated from the source (`o = 0; for b in x: o = (o << 8) + safe_ord(b)` on Python ints, `<< 8` as
     `* 2 ^ 8`, `safe_ord` of a byte as the byte's value) is the model's `Ecdsa.bytesToInt` (= `os2ip`, big-endian). -/
 theorem bytes_to_int_eq (x : Bytes) : Gen.ExtraHashSecp.bytes_to_int x = Ecdsa.bytesToInt x := by
   unfold Gen.ExtraHashSecp.bytes_to_int Ecdsa.bytesToInt os2ip
-  exact bytes_to_int_loop x 0
+  refine foldl_int_of_nat _ (fun acc (b : UInt8) => acc * 256 + b.toNat) ?_ x 0
+  intro o b
+  simp only [Int.natCast_add, Int.natCast_mul]
+  rfl
 
 /-- `deterministic_generate_k(msghash, priv)` as translated from the source (RFC 6979 with HMAC over `hashlib.sha256` = the
     parameter `H`: `v = b"\x01" * 32`, `k = b"\x00" * 32`, the two rounds `k = HMAC_k(v + b"\x00"/b"\x01" + priv + msghash)`,
